@@ -154,6 +154,12 @@ RowOK(line, cols, header, r) == \A k \in 1..Len(cols) :
   LET ts == CellTexts(ColName(header, cols[k]), cols[k].w, r) IN
   ts = {} \/ Cell(line, cols[k]) \in ts
 
+\* a source marker annotates a value: where the cell of ALT B, ALT S, VRATE, TRK or HDG is blank, the gutter after it is blank
+MarkedCols == {N_ALTB, N_ALTS, N_VRATE, N_TRK, N_HDG}
+MarkersOK(line, cols, header) == \A k \in 1..Len(cols) :
+  (ColName(header, cols[k]) \in MarkedCols /\ Cell(line, cols[k]) = Rep(Blank, cols[k].w) /\ cols[k].s + cols[k].w <= Len(line))
+     => line[cols[k].s + cols[k].w] = Blank
+
 (******************************** C15 *************************************)
 \* key of a row for an order letter: <<>> blank, else <<number>>; category: 8 * tc + ca
 KeyOf(letter, r) ==
